@@ -44,11 +44,15 @@ static thread_local FILE* out = stdout;
 static long g_budget = -1;      // -1: no fault injection
 static long g_accepted = 0;     // bytes accepted on faulted descriptors since the last reset
 static long g_refused = 0;      // number of write calls refused
+static int g_once = 0;          // 1: a TRANSIENT fault - exactly one write call is refused when the budget is used up, later ones are accepted
 static int g_ownfd = 1;
 extern "C" ssize_t write(int fd, const void* buf, size_t n) {
     if (g_budget < 0 || fd == g_ownfd || fd <= 2) return syscall(SYS_write, fd, buf, n);
     long room = g_budget - g_accepted;
-    if (room <= 0) { ++g_refused; errno = ENOSPC; return -1; }
+    if (room <= 0) {
+        if (g_once && g_refused > 0) { ssize_t r0 = syscall(SYS_write, fd, buf, n); return r0; }     // the fault is over
+        ++g_refused; errno = ENOSPC; return -1;
+    }
     size_t m = n <= (size_t)room ? n : (size_t)room;
     ssize_t r = syscall(SYS_write, fd, buf, m);
     if (r > 0) g_accepted += r;
@@ -303,6 +307,9 @@ static int runScript(const char* scriptPath, const char* outPath, int tid) {
             Frame& f = vars[t[1]];
             if (t[2] == "pt") { size_t i = std::strtoull(t[3].c_str(), 0, 10); Point& p = f.points_nonConst().point_nonConst(i); p.x(unhex8(t[4])); p.y(unhex8(t[5])); p.z(unhex8(t[6])); p.residual(unhex8(t[7])); }
             else if (t[2] == "addpt") { f.points_nonConst().point(parsePoint(t[3])); }
+            else if (t[2] == "ptname") { size_t i = std::strtoull(t[3].c_str(), 0, 10); try { f.points_nonConst().point_nonConst(i).name(unx(t[4])); } catch (std::exception&) {} }
+            else if (t[2] == "chn") { size_t k = std::strtoull(t[3].c_str(), 0, 10); try { f.analogs_nonConst().subframe_nonConst(k).channel_nonConst(unx(t[4])).data(unhex8(t[5])); } catch (std::exception&) {} }
+            else if (t[2] == "ptn") { try { f.points_nonConst().point_nonConst(unx(t[3])).x(unhex8(t[4])); } catch (std::exception&) {} }
             else if (t[2] == "ch") { size_t k = std::strtoull(t[3].c_str(), 0, 10), i = std::strtoull(t[4].c_str(), 0, 10); f.analogs_nonConst().subframe_nonConst(k).channel_nonConst(i).data(unhex8(t[5])); }
             continue;
         }
@@ -338,6 +345,19 @@ static int runScript(const char* scriptPath, const char* outPath, int tid) {
                 std::string v; r = classify([&]() { const Group& G = sp.group_nonConst(i); v = xhex(G.name()) + " " + std::to_string(G.nbParameters()); });
                 if (r == "ok") std::fprintf(out, "V %s\n", v.c_str()); else std::fprintf(out, "T %s\n", r.c_str() + 6);
             }
+            else if (t[1] == "prename") {    // rename a stored group in place through the non-const accessor
+                size_t i = std::strtoull(t[2].c_str(), 0, 10);
+                r = classify([&]() { sp.group_nonConst(i).name(unx(t[3])); });
+                std::fprintf(out, "R %s\n", r.c_str()); dumpSP();
+            }
+            else if (t[1] == "pgroupidx") {
+                std::string v; r = classify([&]() { v = std::to_string(sp.groupIdx(unx(t[2]))); });
+                if (r == "ok") std::fprintf(out, "V %s\n", v.c_str()); else std::fprintf(out, "T %s\n", r.c_str() + 6);
+            }
+            else if (t[1] == "pgroupn") {
+                std::string v; r = classify([&]() { const Group& G = sp.group_nonConst(unx(t[2])); v = xhex(G.name()) + " " + std::to_string(G.nbParameters()); });
+                if (r == "ok") std::fprintf(out, "V %s\n", v.c_str()); else std::fprintf(out, "T %s\n", r.c_str() + 6);
+            }
             else std::fprintf(out, "R badop\n");
             continue;
         }
@@ -346,9 +366,9 @@ static int runScript(const char* scriptPath, const char* outPath, int tid) {
             res = classify([&]() { cur->write(t[1]); });
         }
         else if (op == "savefault") {    // savefault <path> <k>: the OS accepts k bytes, then ENOSPC
-            g_budget = std::strtol(t[2].c_str(), 0, 10); g_accepted = 0; g_refused = 0;
+            g_budget = std::strtol(t[2].c_str(), 0, 10); g_accepted = 0; g_refused = 0; g_once = (t.size() > 3 && t[3] == "once");
             res = classify([&]() { cur->write(t[1]); });
-            long acc = g_accepted, ref = g_refused; g_budget = -1;
+            long acc = g_accepted, ref = g_refused; g_budget = -1; g_once = 0;
             std::fprintf(out, "R %s\n", res.c_str());
             if (res != "ok") std::fprintf(out, "W fault\n"); else std::fprintf(out, "W %ld %s\n", acc, ref > 0 ? "fault-fired" : "no-fault");
             std::fflush(out); continue;
@@ -401,6 +421,8 @@ static int runScript(const char* scriptPath, const char* outPath, int tid) {
                 if (t[2] == "pt") { size_t i = std::strtoull(t[3].c_str(), 0, 10); Point& p = f.points_nonConst().point_nonConst(i); p.x(unhex8(t[4])); p.y(unhex8(t[5])); p.z(unhex8(t[6])); p.residual(unhex8(t[7])); }
                 else if (t[2] == "ptname") { size_t i = std::strtoull(t[3].c_str(), 0, 10); f.points_nonConst().point_nonConst(i).name(unx(t[4])); }      // rename a stored point
                 else if (t[2] == "chname") { size_t k = std::strtoull(t[3].c_str(), 0, 10), i = std::strtoull(t[4].c_str(), 0, 10); f.analogs_nonConst().subframe_nonConst(k).channel_nonConst(i).name(unx(t[5])); }
+                else if (t[2] == "chn") { size_t k = std::strtoull(t[3].c_str(), 0, 10); f.analogs_nonConst().subframe_nonConst(k).channel_nonConst(unx(t[4])).data(unhex8(t[5])); }   // write through the BY-NAME accessor
+                else if (t[2] == "ptn") { Point& p = f.points_nonConst().point_nonConst(unx(t[3])); p.x(unhex8(t[4])); }                                                             // idem for a point
                 else { size_t k = std::strtoull(t[3].c_str(), 0, 10), i = std::strtoull(t[4].c_str(), 0, 10); f.analogs_nonConst().subframe_nonConst(k).channel_nonConst(i).data(unhex8(t[5])); }
             });
         }
